@@ -83,6 +83,28 @@ inputs:
      whose behaviour matches only one of them.
 The change may be anywhere in the package but must NOT repeat a site or mechanism listed above.
 Make sure the demo shows the violation through one of the public observables listed under "observe_at".""",
+    8: """Earlier rounds already covered: wrong-variable / dropped-condition slips; stale caches; zero-is-falsy; `is` vs `==`;
+__eq__ / __hash__ / dataclass changes; unstable sorting; aliasing, copy vs deepcopy, mutable defaults, class-level attributes;
+dtype slips; duck typing; shared transform helpers; options not forwarded / wrong label index; zip / dict-order / loop-variable
+slips; angle wrap-around, quaternion order; alternative entry points disagreeing; broadened try/except; vectorisation slips;
+"modernised" library calls; merged helpers; bounding-circle pre-filters; bisect without guard.
+This time play a developer who FIXES A (fictional but plausible) BUG REPORT or ADDS A SMALL FEATURE, and whose patch
+over-corrects — it does what the ticket asks for the reported case but silently changes behaviour for a neighbouring class of
+inputs. Write the ticket in one sentence in your summary. Examples of such tickets:
+ - "objects exactly on the range boundary are dropped" / "objects slightly outside should be kept" (tolerance added on one side
+   only, or to the wrong quantity);
+ - "support polygon-shaped / zero-height / negative-size / NaN-containing objects" (new branch taken by ordinary boxes in some
+   configuration);
+ - "estimates with confidence 0 (or exactly the threshold) must not be discarded";
+ - "frames without estimates / without ground truth crash or give NaN" (early return that also fires for a non-empty case);
+ - "traffic lights seen by two cameras are counted twice" (de-duplication that also merges distinct objects);
+ - "timestamps in nanoseconds should be accepted", "unknown labels should never count as FP", "ground truths without point
+   cloud (num_points = 0 / None) must be kept", "labels given in upper case in the scenario file", "allow a per-label list where
+   only a scalar was accepted" ...
+The patch must look like a reasonable fix for the ticket (a reviewer skimming it would approve), keep the existing tests green,
+and break the property for inputs the ticket was NOT about. It must NOT repeat a site or mechanism listed above.
+Make sure the demo shows the violation through one of the public observables listed under "observe_at", on an input that has
+nothing to do with the ticket's special case.""",
 }
 
 TEMPLATE = """You are helping to measure how sensitive a verification effort is. You will SEED A BUG.
